@@ -397,7 +397,8 @@ func deadlineWriters(c *Ctx, r *Report, rule string) {
 					return
 				}
 				n++
-				if !allowed[fnDisplay(fn)] {
+				// the guarded readers, Shutdown, or a function of its own that arms the deadline under the same guard
+				if !allowed[fnDisplay(fn)] && (sub != fn || len(deadlineArmProblems(c, fn, nil)) > 0) {
 					bad = append(bad, fmt.Sprintf("%s in %s", c.pos(in.Pos()), fnDisplay(fn)))
 				}
 			})
